@@ -38,6 +38,8 @@ CLAIMS = {
          "Requests and responses travel through the real routing, handlers, JSON encoding and the bundled client's decoding; only the socket is replaced (a RoundTripper that serves the request on the calling simulated task). The outcome of every state-changing request is judged by the oracles of the direct calls (C08 start/stop/restart, C13 scaling, C14 update); state, states, info, names, ports, hostname and project state are read directly, through REST and directly again under a pinned schedule and must agree; 3-10 invalid requests per run (unknown names, non-numeric / out-of-range path parameters, malformed bodies, wrong methods) must be answered 4xx with a message, never 5xx or a panic, and GET /live must still answer. The websocket log stream and real sockets are not exercised: see DESIGN.md."),
  "C16": ("exploration", "3.C16", "the real loader run repeatedly on seeded configuration files while the simulator decides every map iteration order (the loader's only source of nondeterminism); loads compared with each other and with the per-replica rendering computed from the scenario",
          "The loader is a function of the files except for Go's randomised map iteration; that order is behind the simulator's seam (rewritten range-over-map in src/loader, src/types, src/templater), so 'the same files always yield the same project' is decided by loading the same files 2-4 times per run under seeded, sorted, reversed and rotated orders and comparing the complete projects; defaults (name, namespace, replicas, launch time-out, unique replica names) and the rendering of every templated field for each replica's own variables and number are compared with the scenario. No clock, scheduling or fault is involved: this is the narrow part of the property simulation can decide (DESIGN.md 3/C16)."),
+ "C07": ("exploration", "3.C07", "seeded dependency graphs (cycles, self-dependencies, undefined names, disabled / foreground / replicated / namespaced processes, requested subsets with and without no-deps) loaded by the real loader and run by the real runner on the simulated kernel under seeded map iteration orders; load result, dependency order, launched commands and reported states compared with the graph",
+         "The accept/reject decision and the order are functions of the file except for map iteration order, which the simulator decides; which commands are actually launched is observed on the simulated kernel after NewProjectRunner+Run under seeded schedules. Expected: rejection iff the graph has a cycle or an undefined dependency; the order lists exactly the processes that are to run, once, dependencies first; exactly the selected processes (closure of the requested ones unless no-deps; not disabled, not foreground, inside the selected namespaces) are launched, once, and with a selection every other process is reported Disabled. Exhaustive enumeration of small graphs is not attempted (sampling): see DESIGN.md."),
  "C11": ("exploration", "3.C11", "seeded simulated runs with scripted output on both streams (chunk splitting, partial last lines, bursts, read errors, restarts); every byte written to the simulated pipes is compared with the log buffer and the log file at the end",
          "What a process wrote to the simulated pipes is ground truth: every complete line must reach the in-memory log and the log file once, in per-stream order, whole (never split or merged across chunk boundaries) and attributed to the right process, across restarts and read errors."),
  "C18": ("exploration", "3.C18", "seeded concurrent writers/readers/subscribers of the log buffer under the cooperative scheduler; porcupine linearizability against a sequential ring model; follower oracle (no loss, duplication or reordering after subscription)",
